@@ -148,15 +148,17 @@ CORPORA.update({
     "ops": dict(
         module="MC.tla",
         quick=dict(consts=dict(Family="seq", SeqColls={1, 2, 3, 4, 5, 6, 7}, SeqApis={"lock", "read", "scoped_lock", "scoped_read"},
-                               SeqRels={"drop"}, SeqKeys={"owned"}, SeqBodies={"dbg"}, SeqDbgColls={1, 2, 3, 4, 5, 6, 7, 9, 13},
+                               SeqRels={"drop"}, SeqKeys={"owned"}, SeqBodies={"dbg", "access", "dupcheck"}, SeqDbgColls={1, 2, 3, 4, 5, 6, 7, 9, 13},
                                SeqKeyOps=set(), SeqTopOps={("debug", 1), ("debug", 2), ("debug", 3), ("debug", 4), ("debug", 5),
                                                            ("debug", 6), ("debug", 7), ("debug", 9), ("debug", 13),
-                                                           ("is_poisoned", 7), ("clear_poison", 7)},
+                                                           ("is_poisoned", 7), ("clear_poison", 7), ("access", 3), ("access", 4),
+                                                           ("access", 5), ("dupcheck", 3), ("dupcheck", 4), ("dupcheck", 6),
+                                                           ("dupcheck", 7), ("dupcheck", 1)},
                                SeqMaxLen=1, SeqHolders={("none", 0), ("lock", 3), ("read", 3), ("lock", 6), ("lock", 13), ("read", 4)},
                                Policies={"RP", "WP"}),
                    parts=14, max_runs=100000),
         thorough=dict(consts=dict(Family="seq", SeqColls={1, 2, 3, 4, 5, 6, 7, 9, 13, 14}, SeqApis=ALL_APIS,
-                                  SeqRels={"drop"}, SeqKeys={"owned"}, SeqBodies={"dbg"}, SeqDbgColls={1, 2, 3, 4, 5, 6, 7, 9, 13, 14},
+                                  SeqRels={"drop"}, SeqKeys={"owned"}, SeqBodies={"dbg", "access", "dupcheck"}, SeqDbgColls={1, 2, 3, 4, 5, 6, 7, 9, 13, 14},
                                   SeqKeyOps=set(), SeqTopOps={("debug", 1), ("debug", 2), ("debug", 3), ("debug", 4), ("debug", 5),
                                                               ("debug", 6), ("debug", 7), ("debug", 9), ("debug", 13), ("debug", 14),
                                                               ("is_poisoned", 7), ("clear_poison", 7)},
